@@ -35,6 +35,8 @@
 #undef EC384CA_SIZE
 #include "testkeys/PSK/psk.h"
 #include "testkeys/PSK/tls13_psk.h"
+#include "testkeys/OCSP/responses/OCSP_256_EC_GOOD.h"
+#include "testkeys/OCSP/responses/OCSP_256_EC_REVOKED.h"
 #include "keys.h"
 
 #define KM(c, k, a) { c, sizeof c, k, sizeof k, a, sizeof a }
@@ -65,4 +67,12 @@ void vsim_tls13_psk(const unsigned char **key, int *keyLen, const unsigned char 
 {
     *key = g_tls13_test_psk_256; *keyLen = sizeof g_tls13_test_psk_256;
     *id = g_tls13_test_psk_id_sha256; *idLen = sizeof g_tls13_test_psk_id_sha256;
+}
+
+/* stapled OCSP responses for the P-256 test identity: 0 = good, 1 = revoked */
+int vsim_ocsp_blob(int which, const unsigned char **p, size_t *n)
+{
+    if (which == 0) { *p = ocsp_256_ec_good; *n = sizeof ocsp_256_ec_good; return 1; }
+    if (which == 1) { *p = ocsp_256_ec_revoked; *n = sizeof ocsp_256_ec_revoked; return 1; }
+    return 0;
 }
